@@ -15,6 +15,7 @@ import Nstd.Args.Model
     p <op> ...                              → p ok=<0|1> st=<running><out><err><in>      (one Process object)
          op = new | start <code> | open <mask> <code> | join | kill | close <mask> | running | read3 <mask>
     killtest <mask>                         → kill ok=1
+    fds                                     → fds          (the harness adds the number of leaked descriptors)
     env set <name> <value> | env get <name> <default> | env all
                                             → e ok=<0|1> | e val=<hex> | e all=<name=value hex,... in Map order>
          (the variables set through the API; the harness uses names starting with NVT_ and removes them at reset)
@@ -131,6 +132,7 @@ def stepLine' (pe : PEnv) (ws : List String) : String :=
       match code.toNat? with
       | some _ => "exit ok=1"
       | none => "bad-op"
+    | ["fds"] => "fds"
     | ["killtest", m] =>
       match m.toNat? with
       | some _ => "kill ok=1"
